@@ -23,6 +23,25 @@ type Reader struct {
 	failAt  int
 	hasFail bool
 	fired   bool
+	// alternative draw (fault injection by a twin party): the altAt-th consumption yields a value
+	// independent of the stream (a fresh variable / differently salted bytes); all other
+	// consumptions coincide with those of every other reader of the same name.
+	altAt  int
+	hasAlt bool
+	// short, when > 0, makes every raw Read deliver at most that many bytes (a legal io.Reader:
+	// TPM/HSM-style sources, pipes); element draws are unaffected.
+	short int
+}
+
+// SetShortReads makes raw reads deliver at most n bytes per call (0 = full reads).
+func (rd *Reader) SetShortReads(n int) { rd.short = n }
+
+// ReaderTwin returns a NEW reader over the stream `name`, positioned at its start: it replays
+// exactly the values the registered reader of that name yields, except that its altAt-th
+// consumption (if altAt ≥ 0) is replaced by an independent value. Used to model a deviating party
+// that re-runs its own computation with one random choice changed.
+func (r *Run) ReaderTwin(name string, altAt int) *Reader {
+	return &Reader{run: r, Name: name, altAt: altAt, hasAlt: altAt >= 0}
 }
 
 // InjectFailure makes the k-th consumption of this stream fail (once).
@@ -78,7 +97,14 @@ func (rd *Reader) Read(p []byte) (int, error) {
 	if err := rd.tick(); err != nil {
 		return 0, err
 	}
+	if rd.short > 0 && len(p) > rd.short {
+		p = p[:rd.short]
+	}
 	rd.run.monitor = append(rd.run.monitor, ReadEvent{Reader: rd.Name, Actor: rd.run.current, Offset: rd.off, N: len(p), Kind: "bytes"})
+	salt := rd.Salt
+	if rd.hasAlt && rd.calls-1 == rd.altAt {
+		salt += "#alt"
+	}
 	for i := range p {
 		blk := (rd.off + i) / 32
 		h := sha256.New()
@@ -88,7 +114,7 @@ func (rd *Reader) Read(p []byte) (int, error) {
 		h.Write(sd[:])
 		h.Write([]byte(rd.Name))
 		h.Write([]byte{0})
-		h.Write([]byte(rd.Salt))
+		h.Write([]byte(salt))
 		p[i] = h.Sum(nil)[(rd.off+i)%32]
 	}
 	rd.off += len(p)
@@ -104,6 +130,9 @@ func (r *Run) drawName(prng io.Reader, n int, kind string) (string, error) {
 			return "", err
 		}
 		name := fmt.Sprintf("rnd:%s@%d", rd.Name, rd.off)
+		if rd.hasAlt && rd.calls-1 == rd.altAt {
+			name = fmt.Sprintf("rnd:%s#alt@%d", rd.Name, rd.off)
+		}
 		r.monitor = append(r.monitor, ReadEvent{Reader: rd.Name, Actor: r.current, Offset: rd.off, N: n, Kind: kind})
 		rd.off += n
 		return name, nil
